@@ -2,6 +2,7 @@
 import itertools
 
 ID = 'C01'
+LEAN_MODULES = ['C01', 'C01b']
 RULE = ('one case = 2-4 REAL nodes (KeyspaceGroup + MemStore + Clock + datacake_rpc Server with the real ConsistencyService and ReplicationService on loopback; no chitchat), 3-25 events: client put/del/put_many/del_many '
         'applied locally exactly as ReplicatedStoreHandle does (stamps from the real clocks are fed to the model), their replication messages delivered / dropped / duplicated / reordered / batched through the real RPC clients, '
         'purges, late deliveries; then - after the last operation - every ordered pair (j,i) completes one anti-entropy exchange (real poll_keyspace -> get_state -> Diff -> handle_removals / handle_modified with fetch_docs) '
@@ -20,7 +21,9 @@ SHRINK = False
 def augment(case, impl):
     out = []
     for l, o in zip(case, impl):
-        if l.split()[0] in ('put', 'del', 'mput', 'mdel', 'wput', 'wdel') and 'ts=' in o:
+        if l.split()[0] == 'staterace' and 'ts=' in o and 'ts2=' in o:
+            out.append(l + ' ts=' + o.split('ts=')[1].split()[0] + ' ts2=' + o.split('ts2=')[1].split()[0])
+        elif l.split()[0] in ('put', 'del', 'mput', 'mdel', 'wput', 'wdel') and 'ts=' in o:
             out.append(l + ' ts=' + o.split('ts=')[1].split()[0])
         else:
             out.append(l)
@@ -79,9 +82,22 @@ def gen_case(rng, idx, fixed_pairs=None):
     return lines
 
 
+def gen_race(rng, idx):
+    """a write lands between the two actor messages of a peer's GetState handler (what the poller's skip rule must survive)"""
+    n = rng.range(2, 3)
+    i = rng.below(n); j = (i + 1 + rng.below(n - 1)) % n
+    lines = ['case %d cluster' % idx, 'nodes %d' % n]
+    for _ in range(rng.range(0, 3)):
+        lines.append('put %d %d %02x' % (rng.below(n), rng.choice([1, 2, 3]), rng.below(256)))
+    lines.append('staterace %d %d %d %d' % (j, i, rng.choice([1, 2, 7]), rng.choice([3, 8, 9])))
+    lines += ['read %d' % i, 'repair %d %d %d' % (j, i, rng.below(2)), 'read %d' % j, 'end']
+    return lines
+
+
 def generate(rng, tier):
     n = dict(quick=150, thorough=6000, search=1500)[tier]
     cases = [gen_case(rng.fork(), i) for i in range(n)]
+    cases += [gen_race(rng.fork(), 100000 + i) for i in range(dict(quick=8, thorough=100, search=16)[tier])]
     # all orders of the 6 exchanges of a 3-node cluster, on a few base histories
     idx = n
     allpairs = [(j, i) for j in range(3) for i in range(3) if i != j]
@@ -98,6 +114,15 @@ def generate(rng, tier):
                 c = None
             if c: cases.append(c); idx += 1
     return cases
+
+
+def canon(line, out):
+    if line.startswith('staterace') and out.startswith('race stamp_is_final='):
+        d = dict(x.split('=') for x in out.split()[1:])
+        # safe for the poller: a reply stamped with the peer's final change stamp carries the final set
+        safe = d['has1'] == 'true' and (d['stamp_is_final'] == 'false' or d['has2'] == 'true')
+        return 'race safe' if safe else 'race UNSAFE ' + ' '.join('%s=%s' % (k, d[k]) for k in ('stamp_is_final', 'has1', 'has2'))
+    return out
 
 
 def oracle(case, impl):
@@ -118,6 +143,8 @@ def oracle(case, impl):
                     i, ts, tb = r.split(':'); (sd if tb == 't' else sl)[i] = ts
             if live != sl or dead != sd:
                 bad.append('%s: set and store of the node disagree: %s' % (line, out[:160]))
+        if line.startswith('staterace') and canon(line, out) != 'race safe':
+            bad.append('%s: the GetState reply carries the peer\'s final change stamp but not its final state (%s): the poller records the stamp and skips the keyspace from then on' % (line, out[:90]))
         if line.startswith('converged'):
             finals[line.split()[1]] = out
     if len(set(finals.values())) > 1:
